@@ -102,6 +102,13 @@ def gen_plan(rng, index, tier):
         for _ in range(rng.randint(2, 8)):
             uid += 1
             steps.append({"op": "setp", "level": rng.choice(["reactor", "core", "assembly", "block", "component"]), "idx": rng.randrange(1000), "param": rng.choice(SET_PARAMS), "vkind": rng.choice(["float", "int", "arr"]), "u": uid})
+            if rng.random() < 0.5:
+                # ... and the setters that change parameters on the caller's behalf
+                steps.append(rng.choice([
+                    {"op": "ndens", "idx": rng.randrange(1000), "nuc": rng.choice(["U235", "U238", "ZR", "FE", "NA23"]), "factor": rng.choice([0.5, 1.5, 2.0])},
+                    {"op": "temp", "idx": rng.randrange(1000), "T": rng.choice([350.0, 400.0, 450.0, 475.0])},
+                    {"op": "height", "idx": rng.randrange(1000), "factor": rng.choice([0.9, 1.1, 1.25])},
+                ]))
     return {"config": cfg, "steps": steps}
 
 
@@ -244,9 +251,43 @@ class Runner:
             return np.arange(2 + u % 3, dtype=float) + u
         return None
 
+    def readonly_attempt(self, st):
+        """Setter calls on a read-only model: refused, and nothing changes."""
+        r = self.r
+        op = st["op"]
+        comps = c06.objects_at_level(r, "component")
+        blks = c06.objects_at_level(r, "block")
+        if op == "ndens":
+            c = comps[st["idx"] % len(comps)]
+            nd = c.getNumberDensities()
+            if not nd:
+                return
+            nuc = st["nuc"] if st["nuc"] in nd else sorted(nd)[st["idx"] % len(nd)]
+            target, call = c, (lambda: c.setNumberDensity(nuc, nd[nuc] * st["factor"] + 1e-5))
+        elif op == "temp":
+            c = comps[st["idx"] % len(comps)]
+            target, call = c, (lambda: c.setTemperature(st["T"] + 7.0))
+        else:
+            b = blks[st["idx"] % len(blks)]
+            target, call = b, (lambda: b.setHeight(b.getHeight() * st["factor"]))
+        before = snapshot(target.parent if target.parent is not None else target)
+        refused = False
+        try:
+            call()
+        except Exception:  # noqa: BLE001 - the refusal
+            refused = True
+        after = snapshot(target.parent if target.parent is not None else target)
+        self.probe("readonly_setter_calls")
+        if not refused or before != after:
+            diff = next(iter(diff_states(before, after)), None)
+            self.fail("C16.readonly", f"{op} on a read-only {type(target).__name__} was {'refused' if refused else 'accepted'}; state changed: {before != after} ({diff})", refused=refused, changed=before != after, op=op)
+
     def do(self, st, depth):
         op = st["op"]
         r = self.r
+        if self.readonly and op in ("ndens", "temp", "height"):
+            self.readonly_attempt(st)
+            return
         if op == "setp":
             o = self.pick(st["level"], st["idx"])
             v = self.value(st["vkind"], st["u"])
